@@ -233,6 +233,9 @@ inductive Op10
   | writeTorn (j : Int) (batch : List Point)
   | dropTorn (j : Int) (m : String)
   | crashInClose (p : CrashPoint)
+  /-- two concurrent writers; the model runs them in this order (every step of
+      `CreateFieldIfNotExists` is one atomic `LoadOrStore`, the real schedule may be the other one) -/
+  | race (a b : List Point)
   | look
   deriving Repr
 
@@ -269,6 +272,10 @@ def step10 (st : PState) : Op10 → PState × Step10
     match crashInClose st p with
     | some st' => reopened (.restart (.inSnapshot p.name)) st' (fullLog st')
     | none => reopened (.restart .clean) (closeFields st) (fullLog (closeFields st))
+  | .race a b =>
+    let r1 := pWrite st a
+    let r2 := pWrite r1.1 b
+    (r2.1, .race a b r1.2 r2.2 (seen r2.1))
   | .look => (st, .look (seen st))
 
 def trace10 : PState → List Op10 → List Step10
